@@ -50,6 +50,10 @@ func (t *tdWorld) connect(name string, s2cCap int, keepAlive uint16, will bool) 
 	t.conns[name] = tc
 	t.order = append(t.order, tc)
 	o := ConnectOpts{ClientID: tc.cid, Clean: true, KeepAlive: keepAlive}
+	if strings.HasPrefix(name, "ANON") {
+		o.ClientID = "" // the broker makes up an identifier (and a clean session)
+		tc.cid = ""
+	}
 	if will {
 		o.Will = &Will{"will/" + tc.cid, "gone:" + tc.cid, 0, false}
 	}
@@ -108,6 +112,15 @@ func (t *tdWorld) badStream() bool {
 	return false
 }
 
+func exemptAny(m map[string]bool) bool {
+	for _, v := range m {
+		if v {
+			return true
+		}
+	}
+	return false
+}
+
 // threadsOf returns the library threads still alive under a connection's handler.
 func threadsOf(alive []vsched.Parked, prefix string) []vsched.Parked {
 	var out []vsched.Parked
@@ -123,6 +136,21 @@ func threadsOf(alive []vsched.Parked, prefix string) []vsched.Parked {
 func (t *tdWorld) checkEnded(exempt map[string]bool) {
 	alive := LibThreadsAlive()
 	impl := t.w.ImplKey()
+	// every session in the store belongs to a connection that is still open (all
+	// sessions of these scenarios are clean)
+	if !exemptAny(exempt) {
+		open := 0
+		for _, c := range t.order {
+			if !c.ended {
+				open++
+			}
+		}
+		if n := strings.Count(strings.SplitN(impl, "#", 2)[0], "{"); n > open {
+			// (the identifiers are not printed: one the broker made up may be random)
+			vsched.Failf("%d connections are open, the session store holds %d (clean) sessions", open, n)
+			return
+		}
+	}
 	for _, c := range t.order {
 		if !c.ended || exempt[c.name] {
 			continue
@@ -131,7 +159,7 @@ func (t *tdWorld) checkEnded(exempt map[string]bool) {
 			vsched.Failf("connection %s has ended but %d of its goroutines are still there: %s", c.name, len(th), core.ParkedString(th))
 			return
 		}
-		if c.clean && strings.Contains(strings.SplitN(impl, "#", 2)[0], c.cid+"{") {
+		if c.clean && c.cid != "" && strings.Contains(strings.SplitN(impl, "#", 2)[0], c.cid+"{") {
 			vsched.Failf("connection %s (clean session) has ended but its session is still in the store: %s", c.name, impl)
 			return
 		}
@@ -198,6 +226,26 @@ func tdScenarios(thorough bool) []tdScenario {
 				}
 			}
 			return ends, nil, closeSrv, final
+		}})
+	}
+	// (1b) a client without a client identifier (the broker makes one up), each end cause
+	for _, cause := range endCauses {
+		cause := cause
+		out = append(out, tdScenario{name: "idle-anonymous/" + cause, run: func(t *tdWorld) ([]func(), map[string]bool, bool, func()) {
+			t.connect("W", 0, 65535, false)
+			c := t.connect("ANON", 0, 10, false)
+			t.subscribe("ANON", "t", 1)
+			switch cause {
+			case "disconnect":
+				return []func(){func() { c.rc.Send(&refcodec.Packet{Type: refcodec.DISCONNECT}); c.ended = true }}, nil, false, nil
+			case "cut":
+				return []func(){func() { c.rc.Cut(); c.ended = true }}, nil, false, nil
+			case "keepalive":
+				return []func(){func() { vsched.Advance(16 * time.Second); c.ended = true }}, nil, false, nil
+			case "garbage":
+				return []func(){func() { c.rc.SendRaw([]byte{0xf0, 0x00}); c.ended = true }}, nil, false, nil
+			}
+			return []func(){func() { c.ended = true; t.conns["W"].ended = true }}, nil, true, nil
 		}})
 	}
 	// (2) the ending connection's own outbound ring is full (the client stopped reading)
@@ -434,7 +482,7 @@ func C16(c *core.Ctx) {
 	if c.Thorough() {
 		dev = 2
 	}
-	c.Rep.Bound = fmt.Sprintf("SCHED: end cause (DISCONNECT, cut, keep-alive expiry in virtual time, garbage packet, Server.Close) x buffer condition (idle; own outbound ring full with a client that stopped reading; publisher held up by a third party's full ring (cut, or its own pipelined DISCONNECT / reserved packet with a backlog behind it); 2/5/9 publishers held up by one stalled subscriber that connected last, then Server.Close; cross-blocked pair; packet larger than the ring can take; partial packet in the inbound ring) x order of the ends; plus (default schedule) every hostile byte stream of C05 as the last bytes of a connection, then a cut; set-up under the default schedule, from the first ending action on every schedule that deviates from the default schedule at <= %d points", dev)
+	c.Rep.Bound = fmt.Sprintf("SCHED: end cause (DISCONNECT, cut, keep-alive expiry in virtual time, garbage packet, Server.Close) x buffer condition (idle, with and without a client identifier; own outbound ring full with a client that stopped reading; publisher held up by a third party's full ring (cut, or its own pipelined DISCONNECT / reserved packet with a backlog behind it); 2/5/9 publishers held up by one stalled subscriber that connected last, then Server.Close; cross-blocked pair; packet larger than the ring can take; partial packet in the inbound ring) x order of the ends; plus (default schedule) every hostile byte stream of C05 as the last bytes of a connection, then a cut; set-up under the default schedule, from the first ending action on every schedule that deviates from the default schedule at <= %d points", dev)
 	c.Rep.Rule = "oracle at quiescence (reached without further environment action = bounded time): the goroutines of every ended connection are gone, its clean session is out of the store, its subscription out of the topic tree, its will published (not after DISCONNECT), Server.Close has returned and then no library goroutine remains; a publisher that was held up by the ended subscriber answers a PINGREQ again"
 	for _, sc := range tdScenarios(c.Thorough()) {
 		if !c.Mine() {
